@@ -34,24 +34,26 @@ theorem Inv_failWrite {s : Sys} (h : Inv s) (verb name res : String) (c : List (
 
 /-! ### reject write -/
 
-theorem Inv_reject {s : Sys} (h : Inv s) {j : JobV} (hj : j ∈ s.jobCache)
-    (hq : j.isQueued = true) : Inv (rejectJobWrite s j).1 := by
-  rw [rejectJobWrite_eq]
-  rcases apiWriteJob_cases s "reject" j (rejectF j) with ⟨res, _, heq, _⟩ | ⟨cur, hf, hrv, _, heq⟩
+theorem Inv_reject {s : Sys} (h : Inv s) {j : JobV} (m : String × Int) (hj : j ∈ s.jobCache)
+    (hq : j.isQueued = true) : Inv (rejectJobWrite s j m).1 := by
+  rcases rejectJobWrite_cases s j m with ⟨res, _, heq, _⟩ | ⟨cur, hf, hrv, _, _, heq⟩ |
+      ⟨cur, _, _, _, _, heq⟩
   · rw [heq]
     exact Inv_failWrite h "reject" j.name res s.counter (fun _ => rfl)
   · rw [heq]
     have hcj : cur = j := h.cached_eq_cur hj hf hrv
     subst hcj
     obtain ⟨hst, hterm⟩ := (isQueued_iff cur).mp hq
-    refine Inv_update (cur := cur) (nj := { rejectF cur cur with rv := s.rv + 1 }) h hf ?_ rfl
+    refine Inv_update (cur := cur) (nj := { rejectF m cur cur with rv := s.rv + 1 }) h hf ?_ rfl
       (fun hx => hx) rfl rfl rfl rfl rfl rfl ?_ rfl (fun f hf => List.mem_of_mem_tail hf)
     · simp [sameSpec, rejectF]
     · intro uid
-      have : bonus cur { rejectF cur cur with rv := s.rv + 1 } = 0 := by
+      have : bonus cur { rejectF m cur cur with rv := s.rv + 1 } = 0 := by
         simp only [bonus, rejectF, JobV.isActive, JobV.isStarted] at hst ⊢
         simp [hst]
       simp [this, applyWrite]
+  · rw [heq]
+    exact Inv_failWrite h "reject" j.name "ok" s.counter (fun _ => rfl)
 
 /-! ### start write with compare-and-swap (per-config path) -/
 
@@ -97,16 +99,16 @@ theorem Inv_startInd {s : Sys} (h : Inv s) {j : JobV} (hj : j ∈ s.jobCache)
 
 /-! ### frames of `canStartJob` / `startJob` -/
 
-theorem rejectJobWrite_cache (s : Sys) (j : JobV) : (rejectJobWrite s j).1.jobCache = s.jobCache := by
-  rw [rejectJobWrite_eq]
-  rcases apiWriteJob_cases s "reject" j (rejectF j) with ⟨res, _, heq, _⟩ | ⟨cur, _, _, _, heq⟩ <;>
-    rw [heq] <;> rfl
+theorem rejectJobWrite_cache (s : Sys) (j : JobV) (m : String × Int) :
+    (rejectJobWrite s j m).1.jobCache = s.jobCache := by
+  rcases rejectJobWrite_cases s j m with ⟨res, _, heq, _⟩ | ⟨cur, _, _, _, _, heq⟩ |
+      ⟨cur, _, _, _, _, heq⟩ <;> rw [heq] <;> rfl
 
 theorem canStartJob_cache (s : Sys) (jc : JCV) (j : JobV) (ac : Int) :
     (canStartJob s jc j ac).1.jobCache = s.jobCache := by
   rcases canStartJob_cases s jc j ac with ⟨_, heq⟩ | ⟨_, _, heq⟩ | ⟨_, _, _, _, heq⟩ |
       ⟨_, _, _, _, heq⟩ | ⟨_, _, _, heq⟩ <;> rw [heq]
-  exact rejectJobWrite_cache s j
+  exact rejectJobWrite_cache s j _
 
 theorem startJob_cache (s : Sys) (jc : JCV) (j : JobV) (old : Int) :
     (startJob s jc j old).1.jobCache = s.jobCache := by
@@ -120,7 +122,7 @@ theorem Inv_canStartJob {s : Sys} (h : Inv s) (jc : JCV) {j : JobV} (ac : Int)
   · exact h
   · exact Inv_congr h (Nat.le_refl _) rfl rfl rfl rfl (fun _ hn => hn) (fun _ => rfl)
       (h.ind_of_sub (fun k hk => hk)) (fun f hf => Or.inl hf)
-  · exact Inv_reject h hj hq
+  · exact Inv_reject h _ hj hq
   · exact h
   · exact h
 
